@@ -117,6 +117,11 @@ def apply_edit(d, tj, nm, edit):
     elif kind == 'cell_twice':
         src = d[nm.level(a)][nm.node(a, b)]
         d[nm.level(a)][nm.node(a, c)].append(sorted(src, key=nm.inv_cell)[0])
+    elif kind == 'empty_then_twice':
+        leaf = hier[-1]
+        src = sorted(d[nm.level(leaf)][nm.node(leaf, a)], key=nm.inv_cell)[0]
+        d[nm.level(leaf)][nm.node(leaf, c)] = []
+        d[nm.level(leaf)][nm.node(leaf, b)].append(src)
     elif kind == 'drop_hier_entry':
         d['hierarchy'].pop(a - 1)
     elif kind == 'drop_key':
